@@ -53,6 +53,11 @@ fn main() {
                     bad.push(format!("expected {:?}", x));
                 }
             }
+            if let Some(xs) = e["one_of"].as_array() {
+                if !xs.iter().any(|x| x.as_str() == Some(s.as_str())) {
+                    bad.push(format!("expected one of {:?}", xs));
+                }
+            }
             if let Some(x) = e["starts_with"].as_str() {
                 if !s.starts_with(x) {
                     bad.push(format!("expected a result starting with {:?}", x));
